@@ -193,10 +193,17 @@ func (cfg *Config) paramExp(pe *syntax.ParamExp) (string, error) {
 				}
 				return n
 			}
+			offsetInRange := true
 			if pe.Slice.Offset != nil {
+				offsetInRange = sliceOffset <= len(rs) && sliceOffset >= -len(rs)
 				rs = rs[slicePos(sliceOffset):]
 			}
 			if pe.Slice.Length != nil {
+				// A negative length counts from the end of the string;
+				// like bash, it must not reach before the offset.
+				if sliceLen < 0 && len(rs)+sliceLen < 0 && set && offsetInRange {
+					return "", fmt.Errorf("%d: substring expression < 0", sliceLen)
+				}
 				rs = rs[:slicePos(sliceLen)]
 			}
 			str = string(rs)
